@@ -13,7 +13,7 @@ def classify(msg):
     return msg.split(" ")[0] if msg else ""
 
 
-JMPI_KEY = "gen-O2+:jmpi_target_is_loop_header"
+JMPI_KEY = progs.JMPI_KEY
 
 
 def jmpi_attributable(text, hexbuf, engine):
@@ -24,8 +24,8 @@ def jmpi_attributable(text, hexbuf, engine):
     import re, mirlib
     if engine not in ("gen2", "gen3") or " jmpi " not in text:
         return False
-    t2, n = re.subn(r" laddr (r\d+), (\S+)\n jmpi \1\n", r" jmp \2\n", text)
-    if n == 0 or " jmpi " in t2:
+    t2 = progs.without_jmpi(text)
+    if t2 is None:
         return False
     exe = mirlib.build_runner("plain")
     a = mirlib.run_group(exe, t2, "interp", [("main", hexbuf)], timeout=120)[0]
